@@ -12,21 +12,43 @@ Cmds == {W(w, a, <<v>>) : w \in {1, 2, 4}, a \in Addrs, v \in Vals}
         \cup {W(w, a, <<v1, v2, v3>>) : w \in {1, 2, 4}, a \in {16, 64}, v1 \in {<<1, 0, 0, 0>>}, v2 \in Vals, v3 \in {<<52, 18, 0, 0>>}}
         \cup {P(w, a, b) : w \in {1, 2, 4}, a \in {0, 16, 32, 64, 256, 4096}, b \in {0, 20, 36, 68, 80, 260, 4100, 4128}}
         \cup {P(w, 65520, 65552) : w \in {1, 2, 4}}
+\* interactive asm blocks: data items in every width, .org / .resb gaps inside a block, with and without an address
+D(w, vs) == [k |-> "data", w |-> w, vals |-> vs]
+Items == {D(1, <<<<1, 0, 0, 0>>, <<2, 0, 0, 0>>, <<3, 0, 0, 0>>, <<4, 0, 0, 0>>>>), D(2, <<<<52, 18, 0, 0>>>>), D(2, <<<<255, 255, 0, 0>>, <<0, 128, 0, 0>>>>),
+          D(4, <<<<120, 86, 52, 18>>>>), D(4, <<<<90, 165, 60, 195>>, <<1, 0, 0, 0>>>>),
+          [k |-> "res", cnt |-> 4], [k |-> "res", cnt |-> 12], [k |-> "org", a |-> 32], [k |-> "org", a |-> 272], [k |-> "org", a |-> 16384]}
+IsData(it) == it.k = "data"
+Blocks == {<<i1>> : i1 \in {x \in Items : IsData(x)}} \cup {<<i1, i2>> : i1 \in Items, i2 \in {x \in Items : IsData(x)}}
+          \cup {<<i1, i2, i3>> : i1 \in {x \in Items : IsData(x)}, i2 \in {x \in Items : ~IsData(x)}, i3 \in {x \in Items : IsData(x)}}
+A(a, its) == [k |-> "asm", a |-> a, items |-> its]
+AsmCmds == {A(a, b) : a \in {-1, 0, 16, 60, 256, 16380}, b \in Blocks}
 \* fetch sessions: write a load-immediate instruction byte by byte, optionally overwrite its immediate with
 \* another write (8, 16 or 32 bits wide, which the byte order then places), execute it
-FetchCases == {[cpu |-> cpu, pc |-> pc, imm |-> imm, ow |-> ow, ov |-> ov] :
+\* via = "asm": the instruction is assembled interactively instead of written byte by byte
+FetchCases == {[cpu |-> cpu, pc |-> pc, imm |-> imm, ow |-> ow, ov |-> ov, via |-> via] :
                  cpu \in {"msp430", "6502", "z80", "avr8"}, pc \in {256, 512, 4096}, imm \in {0, 1, 90, 128, 255, 4660, 65535},
-                 ow \in {0, 1, 2}, ov \in {<<165, 0, 0, 0>>, <<52, 18, 0, 0>>}}
+                 ow \in {0, 1, 2}, ov \in {<<165, 0, 0, 0>>, <<52, 18, 0, 0>>}, via \in {"write", "asm"}}
 Init == s = <<>> /\ n \in 2..MaxLen
-NextR == Len(s) < n /\ s' = Append(s, RandomElement(Cmds)) /\ UNCHANGED n
+\* one command in four is an asm block
+NextR == Len(s) < n /\ s' = Append(s, IF RandomElement(1..4) = 1 THEN RandomElement(AsmCmds) ELSE RandomElement(Cmds)) /\ UNCHANGED n
 SpecR == Init /\ [][NextR]_<<s, n>>
 Emit == Len(s) = n => PrintT("CASE " \o ToJson(s))
 \* boundary sessions (always run, not drawn): one write of every width at every address next to a 64 KiB page
 \* boundary, then the bytes and the values around it are printed
+AsmSessions == {<<W(1, 16, <<<<119, 0, 0, 0>>>>), W(1, 280, <<<<119, 0, 0, 0>>>>), A(a, b), A(-1, <<D(2, <<<<52, 18, 0, 0>>>>)>>), P(1, 0, 64), P(1, 256, 320), P(2, 16368, 16400)>> :
+                  a \in {0, 16, 256, 16380}, b \in Blocks}
+\* symbol sessions: the loaded file defines foo, bar and last (unit addresses); writes and ranges name them
+Syms == <<[name |-> "foo", a |-> 256], [name |-> "bar", a |-> 260], [name |-> "last", a |-> 280]>>
+SymVal(syms, nm) == syms[CHOOSE i \in 1..Len(syms) : syms[i].name = nm].a
+PS(w, a, sa, b, sb) == [k |-> "print", w |-> w, a |-> a, sa |-> sa, b |-> b, sb |-> sb]
+\* (the property names symbols as range arguments; the address of write* is given as a number)
+SymSessions == {<<W(w, SymVal(Syms, nm), <<<<120, 86, 52, 18>>>>), PS(w, -1, "foo", -1, "last"), PS(1, -1, x, 288, ""), PS(1, 248, "", -1, y), PS(w, -1, x, -1, y)>> :
+                  w \in {1, 2, 4}, nm \in {"foo", "bar", "last"}, x \in {"foo", "bar"}, y \in {"bar", "last"}}
 BoundSessions == {<<W(w, a, <<v>>), P(1, 65520, 65552), P(w, 65520, 65552)>> :
                     w \in {1, 2, 4}, a \in {65532, 65533, 65534, 65535}, v \in {<<120, 86, 52, 18>>, <<255, 255, 255, 255>>}}
                  \cup {<<W(w, 65530, <<<<1, 0, 0, 0>>, <<120, 86, 52, 18>>, <<90, 165, 60, 195>>>>), P(1, 65520, 65552)>> : w \in {2, 4}}
 InitF == s = <<>> /\ n = 0
 NextF == FALSE /\ UNCHANGED <<s, n>>
-EmitFetch == (s = <<>>) => (PrintT("FETCH " \o ToJson(FetchCases)) /\ PrintT("BOUND " \o ToJson(BoundSessions)))
+EmitFetch == (s = <<>>) => (PrintT("FETCH " \o ToJson(FetchCases)) /\ PrintT("BOUND " \o ToJson(BoundSessions)) /\ PrintT("ASMS " \o ToJson(AsmSessions))
+             /\ PrintT("SYMS " \o ToJson([syms |-> Syms, sessions |-> SymSessions])))
 =============================================================================
